@@ -389,7 +389,6 @@ def modrefCanon : List (String × Bool × List String × List String × List Str
 
 def costSitesUrl : List (String × String) := [
   ("IPv6Addr.String", "string += output"),
-  ("SearchParams.QueryEscape", "copying conversion string(percentEncoded[:])"),
   ("SearchParams.init", "call strings.ReplaceAll"),
   ("SearchParams.init", "call strings.SplitN"),
   ("SearchParams.init", "copying conversion []byte(s)"),
@@ -399,21 +398,15 @@ def costSitesUrl : List (String × String) := [
   ("parser.BasicParser", "copying conversion []byte(s)"),
   ("parser.BasicParser", "copying conversion []rune(buffer.String())"),
   ("parser.BasicParser", "copying conversion []rune(s)"),
-  ("parser.BasicParser", "copying conversion string(?)"),
   ("parser.BasicParser", "copying conversion string(bb)"),
   ("parser.BasicParser", "copying conversion string(i.runes[:])"),
-  ("parser.BasicParser", "copying conversion string(percentEncoded[:])"),
   ("parser.BasicParser", "copying conversion string(runes[:])"),
   ("parser.DecodePercentEncoded", "copying conversion string(bytes[:])"),
-  ("parser.PercentEncodeString", "copying conversion string(percentEncoded[:])"),
   ("parser.parseHost", "copying conversion []rune(s)"),
   ("parser.parseOpaqueHost", "copying conversion []rune(input[:])"),
-  ("parser.parseOpaqueHost", "copying conversion string(percentEncoded[:])"),
-  ("parser.parseOpaqueHost", "copying conversion string(runes[:])"),
-  ("percentEncodeString", "copying conversion string(percentEncoded)")]
+  ("parser.parseOpaqueHost", "copying conversion string(runes[:])")]
 
 def costSitesCanon : List (String × String) := [
-  ("percentEncode", "copying conversion string(percentEncoded)"),
   ("repeatedDecode", "copying conversion []byte(s)")]
 
 def set_c0 : List (Nat × Nat) := [(0x0, 0x1f), (0x7f, 0x10ffff)]
